@@ -13,7 +13,7 @@
 From Coq Require Import List ZArith Permutation Sorting.
 From TskVerif Require Import Base.Common Gen.Generated C12.Model C12.BytesProofs C12.Unfold C12.ShapeProofs C12.RoundTripProofs
   C12.LayoutProofs C12.OrderProofs C12.ExhaustProofs C12.ValidProofs C12.JsonProofs C12.NormProofs
-  C12.StringProofs C12.TotalProofs C12.NumpyProofs C12.TextProofs.
+  C12.StringProofs C12.TotalProofs C12.NumpyProofs C12.TextProofs C12.RowView C12.RowViewProofs.
 Import ListNotations.
 Open Scope Z_scope.
 
@@ -207,6 +207,25 @@ Theorem table_view_own_schema : forall schemas k t d l,
   t_nullable t = false /\
   offs (dt_layout d 0) = prefix_sums 0 l /\ sizes (dt_layout d 0) = l /\ dt_itemsize d = zsum l.
 Proof. exact NumpyProofs.table_view_own_schema. Qed.
+
+(* every access path (ts.<row>(i), the row sequences, site.mutations, edge_diffs in both directions
+   with and without the terminal diff, Tree.sites()/mutations(), Variant.site, table indexing /
+   iteration / slices / copies) shows a row of table k as its stored bytes decoded under the schema
+   of table k: for a row stored through that schema this is the normal form of the stored object *)
+Theorem row_view_own_schema : forall round32 widen32 schemas k t v bs,
+  nth_error schemas k = Some t ->
+  rt_ok (t_schema (modify_top t)) = true -> shape_ok (t_schema (modify_top t)) = true ->
+  validate_and_encode round32 (modify_top t) v = EOk bs ->
+  (t_nullable t = true -> v <> VNull -> bs <> []) ->
+  row_view widen32 schemas k bs = DOk (norm_top round32 widen32 (modify_top t) v) [].
+Proof. exact RowViewProofs.row_view_own_schema. Qed.
+
+(* the harness's per-path correspondence term speaks about row_view *)
+Theorem check_row_view_sound : forall schemas k buf w,
+  check_row_view schemas k buf (OV w) = true ->
+  exists t v rest, nth_error schemas k = Some t /\
+    row_view widen32_impl schemas k buf = DOk v rest /\ value_eqb v w = true.
+Proof. exact RowViewProofs.check_row_view_sound. Qed.
 
 (* ---- (c) termination / consumption ---- *)
 Theorem decode_consumes : forall widen32 s fuel buf v rest,
